@@ -15,6 +15,7 @@ package election
 
 import (
 	"context"
+	"sync"
 	"sync/atomic"
 	"time"
 
@@ -43,6 +44,10 @@ type lease struct {
 	// leaseTimeout and expireTime are used to control the lease's lifetime
 	leaseTimeout time.Duration
 	expireTime   atomic.Value
+	// closed is set by Close. A keep-alive response that arrives afterwards must not make the
+	// lease look valid again. closeMu makes "check closed and extend" atomic with Close.
+	closeMu sync.Mutex
+	closed  bool
 }
 
 // Grant uses `lease.Grant` to initialize the lease and expireTime.
@@ -67,7 +72,10 @@ func (l *lease) Grant(leaseTimeout int64) error {
 // Close releases the lease.
 func (l *lease) Close() error {
 	// Reset expire time.
+	l.closeMu.Lock()
+	l.closed = true
 	l.expireTime.Store(time.Time{})
+	l.closeMu.Unlock()
 	// Try to revoke lease to make subsequent elections faster.
 	ctx, cancel := context.WithTimeout(l.client.Ctx(), revokeLeaseTimeout)
 	defer cancel()
@@ -96,7 +104,11 @@ func (l *lease) KeepAlive(ctx context.Context) {
 		case t := <-timeCh:
 			if t.After(maxExpire) {
 				maxExpire = t
-				l.expireTime.Store(t)
+				l.closeMu.Lock()
+				if !l.closed {
+					l.expireTime.Store(t)
+				}
+				l.closeMu.Unlock()
 			}
 		case <-time.After(l.leaseTimeout):
 			log.Info("lease timeout", zap.Time("expire", l.expireTime.Load().(time.Time)), zap.String("purpose", l.Purpose))
